@@ -22,9 +22,11 @@ ASSUMPTIONS = ["budgets: CPU <= 2 s + 20 s/MiB, allocation <= 64 x input + 64 Mi
 
 def plan(tier):
     if tier == "quick":
-        return [("debug", 10, dict(budget=3000, strace=0)), ("release", 4, dict(budget=2000, strace=0)), ("asan", 2, dict(budget=500, strace=0))]
+        return [("debug", 10, dict(budget=3000, strace=0)), ("release", 4, dict(budget=2000, strace=0)), ("asan", 2, dict(budget=500, strace=0)),
+                ("memcheck", 4, dict(budget=1500, strace=0, cap=120, jobs=3))]
     return [("debug", 16, dict(budget=60000, strace=1)), ("release", 8, dict(budget=40000, strace=0)), ("asan", 8, dict(budget=8000, strace=0)),
-            ("miri", 16, dict(budget=2000, strace=0, cap=25, jobs=2))]
+            ("miri", 16, dict(budget=2000, strace=0, cap=25, jobs=2)),
+            ("memcheck", 16, dict(budget=4000, strace=0, cap=500, jobs=4))]
 
 
 def shard(ctx):
